@@ -208,8 +208,59 @@ func c06Eval(cs *c06Case, ts *tinyStats, bs *bnStats) (string, string, error) {
 			want = "reject"
 		}
 		return verdict(gad.Solved(&gad.FromBBE{In: gad.Vars(len(d))}, &gad.FromBBE{In: fv(d), Out: out}, p)), want, nil
+	case "eng-bitseq":
+		// cs.V = value, cs.Size = width, cs.Digits = operation sequence over {F,T}
+		p := bigs(cs.P)
+		v := bigs(cs.V)
+		in := bigEndianBits(v, cs.Size)
+		if denoted(in).Cmp(v) != 0 {
+			return "", "", fmt.Errorf("harness: bit-string conventions disagree for %s", v)
+		}
+		shape := &gad.BitSeq{In: gad.Vars(cs.Size), InCopy: gad.Vars(cs.Size), Ops: cs.Digits}
+		asg := &gad.BitSeq{In: fv(in), InCopy: fv(in), Val: v, Ops: cs.Digits}
+		return verdict(gad.Solved(shape, asg, p)), "accept", nil
 	}
 	return "", "", fmt.Errorf("unknown kind %q", cs.Kind)
+}
+
+// c06SeqCases: every call sequence of length <= maxLen over {F, T} on shared variables, for values that are
+// not byte-palindromes, over several fields and widths.
+func c06SeqCases(maxLen int) []c06Case {
+	var seqs []string
+	var rec func(cur string)
+	rec = func(cur string) {
+		if cur != "" {
+			seqs = append(seqs, cur)
+		}
+		if len(cur) == maxLen {
+			return
+		}
+		rec(cur + "F")
+		rec(cur + "T")
+	}
+	rec("")
+	type fset struct {
+		p    string
+		size int
+		vals []string
+	}
+	rm1 := new(big.Int).Sub(ref.R, ref.B(1))
+	sets := []fset{
+		{"65537", 16, []string{"1", "256", "4660", "65280", "65534"}},
+		{"16777259", 24, []string{"1", "65536", "1193046", "16777215"}},
+		{"16777259", 32, []string{"1", "1193046"}},
+		{ref.R.String(), 256, []string{"1", "256", rm1.String(), new(big.Int).Sub(ref.Pow2(248), ref.B(1)).String(), ref.Pow2(248).String()}},
+		{ref.R.String(), 32, []string{"1", "300", "4294967295"}},
+	}
+	var out []c06Case
+	for _, st := range sets {
+		for _, v := range st.vals {
+			for _, sq := range seqs {
+				out = append(out, c06Case{Kind: "eng-bitseq", P: st.p, Size: st.size, V: v, Digits: sq, Flip: -1})
+			}
+		}
+	}
+	return out
 }
 
 func bitString(x uint64, n int) string {
@@ -341,6 +392,14 @@ func c06Body(c *ev.Ctx) {
 		}
 	}
 	runCases(r, "small primes (engine): ReducedModRCheck on all boolean vectors of width 8/16 (+non-boolean digits), ToReducedBigEndian on all values, FromBinaryBigEndian", cases, c06Eval)
+	// ---- B2: call sequences on shared variables (gadgets must not disturb their caller's variables) ----
+	{
+		ml := 3
+		if !quick {
+			ml = 4
+		}
+		runCases(r, "engine: every sequence of <= 3 FromBinaryBigEndian / ToReducedBigEndian calls on shared variables; the caller's bit string must be left as passed", c06SeqCases(ml), c06Eval)
+	}
 	// ---- C: BN254, 256 digits ------------------------------------------------------
 	cases = nil
 	rbits := []byte(bitString(0, 256))
